@@ -74,6 +74,10 @@ type HarnessSpec struct {
 	EffectsOf []string          `json:"effects_of,omitempty"` // C20: report stores to pre-existing memory
 	Params    map[string]int    `json:"params,omitempty"`     // concrete parameters passed to the entry (lengths etc.)
 	LoopAssume map[string]int   `json:"loop_assume,omitempty"` // function name -> iteration bound taken as an ASSUMPTION (stated bound)
+	MathIn    []string          `json:"math_in,omitempty"`    // harness functions whose int arithmetic is mathematical (no overflow obligations): shadow state of an abstraction
+	WrapConv  bool              `json:"wrap_conversions,omitempty"` // int mode: narrowing signed conversions wrap (exact Go semantics) instead of being no-overflow obligations
+	ExecTimeoutS int            `json:"exec_timeout_s,omitempty"` // budget for the symbolic execution itself (default 1800 s); exceeding it is a tool error (inconclusive)
+	Prune     bool              `json:"prune,omitempty"`      // ask the solver at every symbolic branch whether each arm is feasible; dead arms are not explored
 	ApproxBitops bool           `json:"approx_bitops,omitempty"` // int mode: inexpressible bit operations yield an arbitrary value (effect harnesses only)
 	BigBytesHavoc int           `json:"big_bytes_havoc,omitempty"` // big.Int.Bytes() of a symbolic value: fresh slice of this length, arbitrary content (effect analysis)
 	BigShared bool              `json:"big_shared,omitempty"` // math/big storage-sharing model: struct copies of a big.Int share the limbs
@@ -110,6 +114,8 @@ type HarnessReport struct {
 	SolveS      float64     `json:"solver_s"`
 	Paths       int         `json:"paths"`
 	Forks       int         `json:"forks"`
+	Pruned      int         `json:"pruned_arms,omitempty"`
+	FeasQ       int         `json:"feasibility_queries,omitempty"`
 	Merges      int         `json:"merges"`
 	Exprs       int         `json:"dag_nodes"`
 	Obligations int         `json:"obligations"`
@@ -370,6 +376,17 @@ func newMachine(prog *ssa.Program, h HarnessSpec) *Machine {
 	m.bigShared = h.BigShared
 	m.bigBytesHavoc = h.BigBytesHavoc
 	m.approxBits = h.ApproxBitops
+	m.wrapConv = h.WrapConv
+	m.prune = h.Prune
+	bud := h.ExecTimeoutS
+	if bud == 0 {
+		bud = 1800
+	}
+	m.deadline = time.Now().Add(time.Duration(bud) * time.Second)
+	m.mathIn = map[string]bool{}
+	for _, n := range h.MathIn {
+		m.mathIn[n] = true
+	}
 	m.contracts = h.Contracts
 	return m
 }
@@ -395,6 +412,10 @@ func runHarness(prog *ssa.Program, pkg *ssa.Package, overlay map[string][]byte, 
 		m.call(fn, m.entryArgs(fn), nil, 0)
 	}()
 	rep.ExecS = time.Since(t1).Seconds()
+	if m.pruneZ != nil {
+		m.pruneZ.close()
+	}
+	rep.Pruned, rep.FeasQ = m.stats["pruned_arms"], m.stats["feasibility_queries"]
 	rep.Paths = 1
 	rep.Forks, rep.Merges = m.stats["forks"], m.stats["merges"]
 	rep.Exprs = len(exprList)
